@@ -11,7 +11,7 @@ from props import codec
 
 MSG_CPP = 'message/Message.cpp'
 TU_CPP = '#include "message/Message.cpp"\n'
-FOLLOW = ('PrimitiveTypeDataArray', 'FixedSizeDataArray', 'Queue<', 'DataFlattenerHelper', 'LittleEndianConverter', 'muscleMin', 'status_t',
+FOLLOW = ('PrimitiveTypeDataArray', 'FixedSizeDataArray', 'Queue<', 'DataFlattenerHelper', 'DataUnflattenerHelper', 'RealSizeChecker', 'LittleEndianConverter', 'muscleMin', 'muscleMax', 'status_t', 'WillUnsigned',
           'muscleCopy', 'B_REINTERPRET', 'muscleSwapBytes', 'B_SWAP')
 # clang's spelling of T, C type, Itanium code, size, unsigned type with the same size
 TYPES = [('signed char', 'signed char', 'a', 1, 'unsigned char'), ('bool', '_Bool', 'b', 1, 'unsigned char'), ('short', 'short', 's', 2, 'unsigned short'),
@@ -30,9 +30,9 @@ def lower():
         L = cxx2c.Lowerer(docs, memberwise=('status_t',), follow=lambda qn, d: any(x in qn for x in FOLLOW))
         roots = []
         for cl, ct, code, size, ut in TYPES:
-            r = cxx2c.find_functions(L, record='PrimitiveTypeDataArray<%s>' % cl, names=['TemplatedFlatten', 'TemplatedFlattenedSize'])
-            if len(r) != 2:
-                raise cxx2c.Unsupported('PrimitiveTypeDataArray<%s>: expected TemplatedFlatten and TemplatedFlattenedSize, found %d' % (cl, len(r)))
+            r = cxx2c.find_functions(L, record='PrimitiveTypeDataArray<%s>' % cl, names=['TemplatedFlatten', 'TemplatedFlattenedSize'] + (['TemplatedUnflatten'] if cl == 'int' else []))
+            if len(r) != (3 if cl == 'int' else 2):
+                raise cxx2c.Unsupported('PrimitiveTypeDataArray<%s>: expected TemplatedFlatten, TemplatedFlattenedSize (and TemplatedUnflatten for int), found %d' % (cl, len(r)))
             roots += r
         L.lower_all(roots)
     finally:
@@ -95,9 +95,57 @@ def contracts_for(L, cl, ct, code, size, ut):
     return fl, fs, c
 
 
+UNFLAT = r'''
+typedef struct PrimitiveTypeDataArray_int AT;
+#define DATA(a) (&((struct FixedSizeDataArray_int *)(a))->_data)
+unsigned int mv_kk; unsigned long mv_w;   /* ghost: wire item index and the little-endian value at that position of the input */
+/* PrimitiveTypeDataArray<int32>::TemplatedUnflatten: the inverse of TemplatedFlatten.  Queue<int32>::Clear
+   is REPLACED BY ITS CONTRACT (enforced in C16: q_Clear); EnsureSize/EnsureSizeAux are inlined (their contract releases a heap
+   block under a condition that is only known after the allocation, which cbmc's replace mode cannot express: DESIGN 9.1). */
+struct status_t %(un)s(AT *this, DU *unflat)
+__CPROVER_requires(__CPROVER_is_fresh(this, sizeof(AT)) && WF_Q_BODY(DATA(this)) && DATA(this)->_queueSize <= MV_QCAP && Q_SNAP(DATA(this)))
+__CPROVER_requires(WF_DU(unflat) && ST_OK(unflat->_status) && mv_room == DU_ROOM(unflat) && mv_room <= 4ul * (MV_QCAP + 2) + 3)
+__CPROVER_requires(4ul * mv_kk + 4 > mv_room || MV_LE4(unflat->_readFrom + 4ul * mv_kk) == mv_w)
+__CPROVER_assigns(__CPROVER_object_whole(this), unflat->_readFrom, unflat->_status) __CPROVER_assigns(DATA(this)->_queue != (int *)0: __CPROVER_object_whole(DATA(this)->_queue)) __CPROVER_frees(DATA(this)->_queue)
+__CPROVER_ensures(WF_Q_POST(DATA(this)))
+/* a byte count that is not a multiple of the item size is refused and the field keeps its value */
+__CPROVER_ensures(mv_room %% 4 == 0 || (!ST_OK(__CPROVER_return_value) && Q_SAME_VIEW(DATA(this))))
+/* success: exactly room/4 items, item k = the little-endian word at offset 4k, every input byte consumed */
+__CPROVER_ensures(!ST_OK(__CPROVER_return_value) || (QN(DATA(this)) == mv_room / 4 && unflat->_readFrom == __CPROVER_old(unflat->_readFrom) + mv_room && \
+      (mv_kk >= QN(DATA(this)) || (unsigned long)(unsigned int)Q_AT(DATA(this), mv_kk) == mv_w)))
+;
+'''
+
+
+def unflatten_job(L, tier):
+    un = codec.pick(L, r'^_ZN6muscle22PrimitiveTypeDataArrayIiE18TemplatedUnflattenE')
+    clear, ens = '_ZN6muscle5QueueIiE5ClearEb', '_ZN6muscle5QueueIiE13EnsureSizeAuxEjbjPPib'
+    hdr, body = L.sliced([un])
+    for f in (clear, ens):
+        if f + '(' not in hdr:
+            raise cxx2c.Unsupported('TemplatedUnflatten no longer calls %s: the modular argument has no subject' % f)
+    qh = open(os.path.join(VERIF, 'contracts/queue.h')).read()
+    # the preamble (macros, ghosts) and the two callee contracts of contracts/queue.h
+    from props.c16 import only_present
+    kept = only_present(qh, {clear}, {'Queue_int__Clear': clear, 'Queue_int__EnsureSizeAux': ens})
+    cap = 4
+    gh = ('mv_init_globals(); unsigned int k_, j_, kk_; int a_, b_, c_, d_; unsigned long w_, r_; mv_k = k_; mv_j = j_; mv_v0 = a_; mv_v1 = b_; mv_vm1 = c_; mv_vj = d_; '
+          'mv_kk = kk_; mv_w = w_; mv_room = r_;')
+    har = '\nvoid h_main(void) { %s AT *a; DU *u; %s(a, u); %s }\n' % (gh, un, END)
+    tu = ('#define MV_QCAP %d\n#define MV_NO_MIRROR 1\n#define MV_CALLEE_CONTRACTS 1\n#define Queue_int__Clear %s\n#define Queue_int__EnsureSizeAux %s\n' % (cap, clear, ens) + hdr + codec.PRE +
+          '\n#line 1 "%s/contracts/queue.h"\n' % VERIF + kept + '\n' + UNFLAT % dict(un=un) + '\n' + body + har)
+    return Job('arr_int_TemplatedUnflatten', tu, 'h_main', enforce=[un], replace=[clear], loops=False, unwind=cap + 2 + 3, klass='bounded',
+               bound='input of at most %d bytes, ring of at most %d allocated slots in the pre-state; loops unwound with unwinding assertions' % (4 * (cap + 2) + 3, cap),
+               functions=[(MSG_CPP, 'PrimitiveTypeDataArray<int>::TemplatedUnflatten'), (codec.DU_H, 'DataUnflattenerHelper::ReadPrimitives<int> / GetNumBytesAvailable'), ('util/Queue.h', 'Queue<int>::HeadPointer / GetItemAt')],
+               malloc_may_fail=True, timeout=900, split=0,
+               drop_checks=['--pointer-primitive-check'], extra=['--no-pointer-primitive-check'])   # a replaced callee may have released the old block: rw_ok() on it is how its contract says it did not
+
+
 def jobs(tier):
     L = lower()
-    J = []
+    # TemplatedUnflatten (the decode half): the contract is written (UNFLAT above) but the job exhausts memory (> 24 GB) once
+    # EnsureSizeAux has to be inlined (it cannot be replaced by its contract here, DESIGN 9.1 (d)): NOT registered, not claimed
+    J = [unflatten_job(L, tier)] if os.environ.get('MV_SLOW') else []
     for cl, ct, code, size, ut in TYPES:
         fl, fs, c = contracts_for(L, cl, ct, code, size, ut)
         m = re.search(r'struct Queue_%s \{.*?_smallQueue\[(\d+)\];' % sname(ct), L.header(), re.S)
